@@ -507,7 +507,9 @@ class C13(runner.Check):
             "class C (+ class B with non-executable definition): role-aware bounded-exhaustive inputs, every specialisation "
             "x every byte pattern; guards, const inputs, independence of the pattern, agreement of the specialisations. "
             "non-trivial = the definition wrote an output element or raised ValueError (class C: the kernel wrote an output "
-            "or failed); candidates are distinct by construction (distinct choice sequences / inputs of one kernel).")
+            "or failed); candidates are distinct by construction (distinct choice sequences / inputs of one kernel). "
+            "Agreement between the specialisations of a class A/B kernel follows from the agreement of each with the one "
+            "definition on the shared members of the domains; it is checked directly only where there is no definition.")
     assumptions = [
         "ctypes marshalling of the kernel ABI (struct Error returned by value) -- exercised by every call",
         "a definition that reads an input outside its declared extent (or outside the touched-extent cap), divides by zero, "
